@@ -632,6 +632,31 @@ func (vc *FuncVC) trCall(e *env, n *ECall) Term {
 		case "fresh": // fresh(r): r was not allocated at function entry
 			al := vc.get(e.old, "alloc", "(Array Int Bool)")
 			return not(app("Bool", "select", al, args[0]))
+		case "overrides": // overrides(other, "pkg.T"): the application's callback list holds a func(context.Context, T) error (see dispatch.go)
+			if st, ok := n.Args[1].(*EStr); ok {
+				t := vc.eng.typeByName(st.V)
+				ctx := vc.eng.typeByName("context.Context")
+				if t == nil || ctx == nil {
+					return e.fail("unknown type %q", st.V)
+				}
+				errT := types.Universe.Lookup("error").Type()
+				sig := types.NewSignatureType(nil, nil, nil,
+					types.NewTuple(types.NewVar(0, nil, "", ctx), types.NewVar(0, nil, "", t)),
+					types.NewTuple(types.NewVar(0, nil, "", errT)), false)
+				vc.eng.needFun(vc, "disp!overrides", []string{"Slice", "Int"}, "Bool")
+				return T("Bool", fmt.Sprintf("(disp!overrides %s %d)", args[0].S, vc.ss.typeTag(sig)))
+			}
+		case "deref": // deref(p): the value a pointer to a basic type points to (cell heap C:<sort>)
+			if args[0].GoT != nil {
+				if pt, ok := args[0].GoT.Underlying().(*types.Pointer); ok {
+					es := vc.ss.sortOf(pt.Elem())
+					h := vc.get(e.st(), "C:"+es, "(Array Int "+es+")")
+					r := app(es, "select", h, args[0])
+					r.GoT = pt.Elem()
+					return r
+				}
+			}
+			return e.fail("deref of a non-pointer")
 		case "unboxstr": // unboxstr(x): the string held by an interface value of dynamic type string
 			return vc.unboxPayload(app("Int", "i!pl", args[0]), "String")
 		case "functag", "predtag": // functag("pkg.T"): type tag of func(context.Context, pkg.T) error; predtag: ... (bool, error)
